@@ -569,4 +569,311 @@ theorem rank1_exact_aux (pc : BitVec 64 → Nat) (hpc : ∀ w, pc w = popcount w
       simp
 
 
+theorem count_true_add_false (l : List Bool) : l.count true + l.count false = l.length := by
+  induction l with
+  | nil => rfl
+  | cons x xs ih => cases x <;> simp <;> omega
+
+theorem rankB_true_add_false (bs : List Bool) (i : Nat) :
+    rankB true bs i + rankB false bs i = min i bs.length := by
+  unfold rankB; rw [count_true_add_false, List.length_take]
+
+theorem rankB_le (b : Bool) (bs : List Bool) (i : Nat) : rankB b bs i ≤ min i bs.length := by
+  unfold rankB
+  have := List.count_le_length (a := b) (l := bs.take i)
+  rwa [List.length_take] at this
+
+/-- `rank0`: the subtraction `i.min(len) - rank1(i)` never underflows and is the zero count. -/
+theorem rank0_exact_aux (pc : BitVec 64 → Nat) (hpc : ∀ w, pc w = popcount w) (ws : List (BitVec 64))
+    (len rate : Nat) (hlen : len ≤ 64 * ws.length) (hf : Fits ws) (b : BVec)
+    (hb : withConfig pc ws len rate = some b) (i : Nat) :
+    rank1 pc b i ≤ min i b.len ∧ rank0 pc b i = rankB false (bitsOf ws len) i := by
+  have h1 := rank1_exact_aux pc hpc ws len rate hlen hf b hb i
+  have hbl : b.len = len := by
+    rw [withConfig_eq pc ws len rate hlen hf] at hb; injection hb with hb; subst hb; rfl
+  have h2 := rankB_true_add_false (bitsOf ws len) i
+  rw [bitsOf_length ws len hlen] at h2
+  unfold rank0
+  rw [h1, hbl]
+  omega
+
+/-- `count_ones` / `count_zeros` (`len - ones_count` never underflows). -/
+theorem count_exact_aux (pc : BitVec 64 → Nat) (hpc : ∀ w, pc w = popcount w) (ws : List (BitVec 64))
+    (len rate : Nat) (hlen : len ≤ 64 * ws.length) (hf : Fits ws) (b : BVec)
+    (hb : withConfig pc ws len rate = some b) :
+    countOnes b = countB true (bitsOf ws len) ∧ b.ones ≤ b.len ∧
+    countZeros b = countB false (bitsOf ws len) := by
+  rw [withConfig_eq pc ws len rate hlen hf] at hb
+  injection hb with hb; subst hb
+  unfold countOnes countZeros countB
+  simp only
+  have h1 := ones_eq pc hpc ws len hlen hf
+  have h2 := count_true_add_false (bitsOf ws len)
+  rw [bitsOf_length ws len hlen] at h2
+  rw [h1]
+  omega
+
+theorem and_one_eq_one (x : BitVec 64) : ((x &&& 1#64) == 1#64) = x.getLsbD 0 := by
+  have : (x &&& 1#64 = 1#64) ↔ x.getLsbD 0 = true := by
+    constructor
+    · intro h; bv_decide
+    · intro h; bv_decide
+  cases hx : x.getLsbD 0 <;> simp_all
+
+theorem allBits_getElem? (ws : List (BitVec 64)) (i : Nat) (hi : i / 64 < ws.length) :
+    (allBits ws)[i]? = some ((ws.getD (i / 64) 0).getLsbD (i % 64)) := by
+  have h1 : i = 64 * (i / 64) + i % 64 := by omega
+  have h2 : (allBits ws)[i]? = ((allBits ws).drop (64 * (i / 64)))[i % 64]? := by
+    rw [List.getElem?_drop]; congr 1
+  rw [h2, drop_allBits_mul, ← List.getElem_cons_drop hi, allBits_cons,
+    List.getElem?_append_left (by rw [wordBits_length]; omega)]
+  rw [List.getElem?_eq_getElem (by rw [wordBits_length]; omega), wordBits_getElem]
+  simp [List.getD_eq_getElem?_getD, hi]
+
+/-- `get`: the bit for `i < len`, the documented panic (`none`) exactly for `i ≥ len`. -/
+theorem get_exact_aux (pc : BitVec 64 → Nat) (ws : List (BitVec 64))
+    (len rate : Nat) (hlen : len ≤ 64 * ws.length) (hf : Fits ws) (b : BVec)
+    (hb : withConfig pc ws len rate = some b) (i : Nat) :
+    get b i = (bitsOf ws len)[i]? := by
+  rw [withConfig_eq pc ws len rate hlen hf] at hb
+  injection hb with hb; subst hb
+  unfold get
+  simp only
+  by_cases hi : i < len
+  · rw [if_pos hi, and_one_eq_one, BitVec.getLsbD_ushiftRight, Nat.add_zero]
+    have hm := allBits_maskWords ws len hlen
+    have hwi : i / 64 < (maskWords ws len).length := by rw [maskWords_length ws len hlen]; omega
+    have := allBits_getElem? (maskWords ws len) i hwi
+    rw [hm, List.getElem?_append_left (by rw [bitsOf_length ws len hlen]; exact hi)] at this
+    rw [this]
+  · rw [if_neg hi, List.getElem?_eq_none (by rw [bitsOf_length ws len hlen]; omega)]
+
+
+/-! ### select index -/
+
+/-- The `while` loop of `SelectIndex::build` for one word: every sample pushed is
+`(word_idx, count)`, `next_sample` advances by `rate` per sample without wrapping, and with fuel
+above `count + pop - next_sample` the loop has left through its condition. -/
+theorem sampleWhile_spec (total cnt pop rate wi : Nat) (hr : 1 ≤ rate) (hw : total + rate ≤ 2 ^ 64)
+    (fuel next : Nat) (hfuel : cnt + pop - next < fuel) :
+    (∀ s ∈ (sampleWhile total cnt pop rate wi fuel next).1, s = ⟨wi, cnt⟩) ∧
+    (sampleWhile total cnt pop rate wi fuel next).2 =
+      next + (sampleWhile total cnt pop rate wi fuel next).1.length * rate ∧
+    ¬ ((sampleWhile total cnt pop rate wi fuel next).2 < total ∧
+        cnt + pop > (sampleWhile total cnt pop rate wi fuel next).2) := by
+  induction fuel generalizing next with
+  | zero => omega
+  | succ fuel ih =>
+    unfold sampleWhile
+    by_cases hc : next < total ∧ cnt + pop > next
+    · rw [if_pos hc]
+      have hm : (next + rate) % 2 ^ 64 = next + rate := Nat.mod_eq_of_lt (by omega)
+      rw [hm]
+      obtain ⟨i1, i2, i3⟩ := ih (next + rate) (by omega)
+      refine ⟨?_, ?_, i3⟩
+      · intro s hs
+        simp only [List.mem_cons] at hs
+        rcases hs with rfl | hs
+        · rfl
+        · exact i1 s hs
+      · simp only [List.length_cons]
+        rw [i2, Nat.add_mul]; omega
+    · rw [if_neg hc]
+      exact ⟨by simp, by simp, hc⟩
+
+/-- Invariant of the sample list produced from word `wi` on: sample number `m` (counted from the
+current position) names a word of the remaining slice, records exactly the ones before that word,
+and that count is at most `next + m · rate`. -/
+theorem sampleGo_spec (total rate : Nat) (hr : 1 ≤ rate) (hw : total + rate ≤ 2 ^ 64)
+    (rest : List (BitVec 64)) (wi cnt next : Nat) (hcn : cnt ≤ next)
+    (htot : cnt + (rest.map popc).sum ≤ total) (m : Nat)
+    (hm : m < (sampleGo total rate rest wi cnt next).length) :
+    let s := (sampleGo total rate rest wi cnt next).getD m ⟨0, 0⟩
+    wi ≤ s.wordIdx ∧ s.wordIdx < wi + rest.length ∧
+    s.cumBefore = cnt + ((rest.take (s.wordIdx - wi)).map popc).sum ∧
+    s.cumBefore ≤ next + m * rate := by
+  induction rest generalizing wi cnt next m with
+  | nil => simp [sampleGo] at hm
+  | cons w rest ih =>
+    simp only [List.map_cons, List.sum_cons] at htot
+    have hsw := sampleWhile_spec total cnt (popc w) rate wi hr hw (popc w + 1) next (by omega)
+    unfold sampleGo at hm ⊢
+    simp only at hm ⊢
+    generalize sampleWhile total cnt (popc w) rate wi (popc w + 1) next = r at *
+    obtain ⟨h1, h2, h3⟩ := hsw
+    have hcm : (cnt + popc w) % 2 ^ 64 = cnt + popc w := Nat.mod_eq_of_lt (by omega)
+    rw [hcm] at hm ⊢
+    by_cases hlt : m < r.1.length
+    · have hs : (r.1 ++ sampleGo total rate rest (wi + 1) (cnt + popc w) r.2).getD m ⟨0, 0⟩ = ⟨wi, cnt⟩ := by
+        rw [List.getD_eq_getElem?_getD, List.getElem?_append_left hlt, List.getElem?_eq_getElem hlt]
+        exact h1 _ (List.getElem_mem hlt)
+      rw [hs]
+      simp
+      omega
+    · have hge : r.1.length ≤ m := by omega
+      rw [List.length_append] at hm
+      have hs : (r.1 ++ sampleGo total rate rest (wi + 1) (cnt + popc w) r.2).getD m ⟨0, 0⟩ =
+          (sampleGo total rate rest (wi + 1) (cnt + popc w) r.2).getD (m - r.1.length) ⟨0, 0⟩ := by
+        rw [List.getD_eq_getElem?_getD, List.getElem?_append_right hge, List.getD_eq_getElem?_getD]
+      rw [hs]
+      have hcn' : cnt + popc w ≤ r.2 := by omega
+      obtain ⟨j1, j2, j3, j4⟩ := ih (wi + 1) (cnt + popc w) r.2 hcn' (by omega) (m - r.1.length) (by omega)
+      generalize (sampleGo total rate rest (wi + 1) (cnt + popc w) r.2).getD (m - r.1.length) ⟨0, 0⟩ = s at *
+      refine ⟨by omega, by simp only [List.length_cons]; omega, ?_, ?_⟩
+      · have e : s.wordIdx - wi = (s.wordIdx - (wi + 1)) + 1 := by omega
+        rw [j3, e, List.take_succ_cons, List.map_cons, List.sum_cons]; omega
+      · have e : m * rate = r.1.length * rate + (m - r.1.length) * rate := by
+          rw [← Nat.add_mul]; congr 1; omega
+        omega
+
+
+/-- **Select index invariant + jump.**  On the index built over `mw` (any sample rate, `0` treated
+as `1`), `jump_to(k)` returns a start word inside the vector and `k` minus exactly the number of
+ones before that word, which is at most `k` (the `usize` subtraction cannot underflow). -/
+theorem jumpTo_buildSelect (mw : List (BitVec 64)) (total rate k : Nat) (htot : total = (mw.map popc).sum)
+    (hsz : 64 * mw.length + 2 ^ 32 ≤ 2 ^ 64) (hrate : rate < 2 ^ 32) (hne : mw ≠ []) :
+    ∃ sw, jumpTo (buildSelect mw total rate) k = (sw, k - prefPop mw sw) ∧ sw < mw.length ∧
+      prefPop mw sw ≤ k := by
+  have hn : 0 < mw.length := List.length_pos_iff.mpr hne
+  unfold buildSelect
+  by_cases h0 : mw.isEmpty ∨ total = 0
+  · rw [if_pos h0]
+    refine ⟨0, ?_, hn, by simp [prefPop_zero]⟩
+    simp [jumpTo, prefPop_zero]
+  · rw [if_neg h0]
+    simp only
+    have hr : 1 ≤ max rate 1 := Nat.le_max_right _ _
+    have hr2 : max rate 1 < 2 ^ 32 := by omega
+    have htl := sum_popc_le mw
+    have inv := sampleGo_spec total (max rate 1) hr (by omega) mw 0 0 0 (Nat.le_refl _) (by omega)
+    generalize sampleGo total (max rate 1) mw 0 0 0 = samples at *
+    generalize max rate 1 = R at *
+    unfold jumpTo
+    simp only
+    by_cases he : samples.isEmpty
+    · rw [if_pos he]
+      exact ⟨0, by simp [prefPop_zero], hn, by simp [prefPop_zero]⟩
+    · rw [if_neg he]
+      have hlen : 0 < samples.length := by
+        cases samples with
+        | nil => simp at he
+        | cons _ _ => simp
+      have hdiv : k / R * R ≤ k := Nat.div_mul_le_self k R
+      by_cases hi : k / R ≥ samples.length
+      · rw [if_pos hi]
+        obtain ⟨_, j2, j3, j4⟩ := inv (samples.length - 1) (by omega)
+        generalize samples.getD (samples.length - 1) ⟨0, 0⟩ = s at *
+        simp only [Nat.zero_add, Nat.sub_zero] at j2 j3 j4
+        have hmul : (samples.length - 1) * R ≤ k / R * R := Nat.mul_le_mul_right R (by omega)
+        refine ⟨s.wordIdx, ?_, j2, ?_⟩
+        · rw [j3]; rfl
+        · unfold prefPop; omega
+      · rw [if_neg hi]
+        obtain ⟨_, j2, j3, j4⟩ := inv (k / R) (by omega)
+        generalize samples.getD (k / R) ⟨0, 0⟩ = s at *
+        simp only [Nat.zero_add, Nat.sub_zero] at j2 j3 j4
+        refine ⟨s.wordIdx, ?_, j2, ?_⟩
+        · rw [j3]; rfl
+        · unfold prefPop; omega
+
+
+/-! ### select1 -/
+
+theorem selectB_lt_length (b : Bool) (l : List Bool) (k x : Nat) (h : selectB b l k = some x) :
+    x < l.length := by
+  induction l generalizing k x with
+  | nil => simp [selectB] at h
+  | cons y ys ih =>
+    unfold selectB at h
+    split at h
+    · cases k with
+      | zero => simp at h; subst h; simp
+      | succ k =>
+        simp only [Option.map_eq_some_iff] at h
+        obtain ⟨a, ha, rfl⟩ := h
+        have := ih k a ha; simp; omega
+    · simp only [Option.map_eq_some_iff] at h
+      obtain ⟨a, ha, rfl⟩ := h
+      have := ih k a ha; simp; omega
+
+/-- Selecting among the bits of the masked words = selecting among the first `len` bits. -/
+theorem selectB_maskWords (ws : List (BitVec 64)) (len k : Nat) (hlen : len ≤ 64 * ws.length) :
+    selectB true (allBits (maskWords ws len)) k = selectB true (bitsOf ws len) k := by
+  rw [allBits_maskWords ws len hlen, selectB_append]
+  split
+  · rfl
+  · rename_i h
+    rw [selectB_none_of_count_le true (List.replicate _ false) _ (by simp [List.count_replicate]),
+      selectB_none_of_count_le true (bitsOf ws len) k (by omega)]
+    rfl
+
+theorem select1_exact_aux (pc : BitVec 64 → Nat) (hpc : ∀ w, pc w = popcount w) (ws : List (BitVec 64))
+    (len rate : Nat) (hlen : len ≤ 64 * ws.length) (hf : Fits ws) (hrate : rate < 2 ^ 32) (b : BVec)
+    (hb : withConfig pc ws len rate = some b) (k : Nat) :
+    select1 b k = selectB true (bitsOf ws len) k := by
+  rw [withConfig_eq pc ws len rate hlen hf] at hb
+  injection hb with hb; subst hb
+  have hones := ones_eq pc hpc ws len hlen hf
+  have hmlen := maskWords_length ws len hlen
+  unfold select1
+  simp only
+  by_cases hk : k ≥ popcountWords pc (maskWords ws len)
+  · rw [if_pos hk, selectB_none_of_count_le true _ k (by omega)]
+  · rw [if_neg hk]
+    rw [← selectB_maskWords ws len k hlen]
+    rw [hones, ← count_maskWords ws len hlen] at hk
+    generalize hmw : maskWords ws len = mw at *
+    have hne : mw ≠ [] := by
+      intro h; subst h; simp [allBits] at hk
+    have htot : popcountWords pc mw = (mw.map popc).sum := by
+      rw [hones, ← hmw, ← count_maskWords ws len hlen, hmw, count_allBits, map_popc]
+    obtain ⟨sw, hj, hsw, hle⟩ := jumpTo_buildSelect mw (popcountWords pc mw) rate k htot
+      (by unfold Fits at hf; omega) hrate hne
+    rw [hj]
+    simp only
+    rw [scanSelect_eq_scalar]
+    unfold scanSelectScalar
+    rw [if_neg (by omega)]
+    -- split the bits at the start word
+    have hsplit : allBits mw = allBits (mw.take sw) ++ allBits (mw.drop sw) := by
+      rw [← allBits_append, List.take_append_drop]
+    have hcnt : (allBits (mw.take sw)).count true = prefPop mw sw := (prefPop_eq_count mw sw).symm
+    have hsel : selectB true (allBits mw) k =
+        (selectB true (allBits (mw.drop sw)) (k - prefPop mw sw)).map (· + 64 * sw) := by
+      rw [hsplit, selectB_append, hcnt, if_neg (by omega), allBits_length, List.length_take,
+        Nat.min_eq_left (by omega)]
+    have hspec := scanScalar_spec popc Kernels.popc_eq_popcount (mw.drop sw) sw (k - prefPop mw sw)
+    cases hscan : scanScalar popc (mw.drop sw) sw (k - prefPop mw sw) with
+    | none =>
+      rw [hscan] at hspec
+      -- impossible: the remaining slice holds more than `k - before` ones
+      have : (allBits mw).count true = prefPop mw sw + (allBits (mw.drop sw)).count true := by
+        rw [hsplit, List.count_append, hcnt]
+      omega
+    | some ir =>
+      obtain ⟨i, r⟩ := ir
+      rw [hscan] at hspec
+      obtain ⟨h1, h2, h3, h4⟩ := hspec
+      simp only
+      have hw : (mw.drop sw).getD (i - sw) 0 = mw.getD i 0 := by
+        rw [List.getD_eq_getElem?_getD, List.getElem?_drop, List.getD_eq_getElem?_getD]
+        congr 2; omega
+      rw [hw] at h3 h4
+      have hr64 : r < 64 := by have := Kernels.popcount_le (mw.getD i 0); omega
+      rw [Nat.mod_eq_of_lt (show r < 2 ^ 32 by omega)]
+      have hsome := selectB_isSome_of_lt true (wordBits (mw.getD i 0)) r h4
+      obtain ⟨p, hp⟩ := Option.isSome_iff_exists.mp hsome
+      have hsw : selectInWordSpec (mw.getD i 0) r = p := by unfold selectInWordSpec; rw [hp]; rfl
+      rw [hsw, hsel, h3, hp]
+      simp only [Option.map_some]
+      have hres : p + 64 * (i - sw) + 64 * sw = i * 64 + p := by omega
+      rw [hres]
+      -- the guard `result < len`
+      have hx : selectB true (bitsOf ws len) k = some (i * 64 + p) := by
+        rw [← selectB_maskWords ws len k hlen, hmw, hsel, h3, hp]; simp only [Option.map_some]; rw [hres]
+      have := selectB_lt_length true _ _ _ hx
+      rw [bitsOf_length ws len hlen] at this
+      rw [if_pos this]
+
+
 end SV.BV
